@@ -54,7 +54,7 @@ Definition bool_t := tkk KBool (txt_of [66; 79; 79; 76]).
 Definition hash_t := tkk KHash [35%N].
 Definition true_t := tkk KTrue (txt_of [84; 82; 85; 69]).
 Definition false_t := tkk KFalse (txt_of [70; 65; 76; 83; 69]).
-Definition kwt (k : tok_kind) : token := tkk k [].     (* keyword tokens: the text plays no role for the parser *)
+Definition kwt (k : tok_kind) : token := tkk k (canonical k).     (* keyword tokens, spelled as the token table spells them *)
 
 Definition op_tok (o : binop) : token :=
   match o with
